@@ -11,8 +11,14 @@ let int_of_z = function Z0 -> 0 | Zpos p -> int_of_pos p | Zneg p -> - (int_of_p
 let ni s = nat_of_int (min (int_of_string s) 1000)
 let zi s = z_of_int (int_of_string s)
 let toks s = List.filter (fun x -> x <> "") (String.split_on_char ' ' s)
+(* decimal printing without going through OCaml ints (64-bit label patterns do not fit) *)
+let rec dec_double (ds : int list) (carry : int) : int list =      (* little-endian decimal digits, times two plus carry *)
+  match ds with [] -> if carry = 0 then [] else [carry] | d :: t -> let x = 2 * d + carry in (x mod 10) :: dec_double t (x / 10)
+let rec dec_of_pos = function XH -> [1] | XO p -> dec_double (dec_of_pos p) 0 | XI p -> dec_double (dec_of_pos p) 1
+let string_of_pos p = String.concat "" (List.rev_map string_of_int (dec_of_pos p))
+let string_of_z = function Z0 -> "0" | Zpos p -> string_of_pos p | Zneg p -> "-" ^ string_of_pos p
 let zline tag segs = print_string tag;
-  List.iteri (fun k l -> if k > 0 then print_string " |"; List.iter (fun z -> print_char ' '; print_string (string_of_int (int_of_z z))) l) segs; print_char '\n'
+  List.iteri (fun k l -> if k > 0 then print_string " |"; List.iter (fun z -> print_char ' '; print_string (string_of_z z)) l) segs; print_char '\n'
 let parse_dop t = match t with
   | ["A";i;j;l;f] -> AddEdge (ni i, ni j, zi l, f = "1")
   | ["AR";i;j;l;f] -> AddReciprocal (ni i, ni j, zi l, f = "1")
@@ -94,6 +100,7 @@ let run_sub_case hd body =
   | ["SUB"; "D"; lk; n] -> let hs = lk <> "none" in let o = List.map parse_dop ops in emit_ms (d_sub_case hs !variant (ni n) o sset so) (d_sub_spec hs (ni n) o sset so fmap)
   | ["SUB"; "U"; lk; n] -> let hs = lk <> "none" in let o = List.map parse_uop ops in emit_ms (u_sub_case hs !variant (ni n) o sset so) (u_sub_spec hs (ni n) o sset so fmap)
   | _ -> failwith "bad SUB case"
+let strict_index = ref true     (* repaired: the text loader rejects negative vertex indices *)
 let once = ref true            (* repaired: findAllVertexPredecessors enqueues a vertex on first discovery only *)
 let run_path_case hd body =
   let parts = String.split_on_char '|' body in
@@ -115,6 +122,23 @@ let run_path_case hd body =
     if cls = "DW" then emit_ms (dw_dj_case !variant (ni n) o s cs) (dw_dj_spec !variant (ni n) o s ipred cs)
     else emit_ms (uw_dj_case !variant (ni n) o s cs) (uw_dj_spec !variant (ni n) o s ipred cs)
   | _ -> failwith "bad PATH/DJ case"
+let hexbytes str =
+  let str = String.concat "" (toks str) in
+  let n = String.length str / 2 in
+  List.init n (fun k -> let v = int_of_string ("0x" ^ String.sub str (2 * k) 2) in if v = 0 then N0 else Npos (pos_of_int v))
+let tlabel_of = function "none" -> TNone | "int" -> TInt | _ -> TStr
+let run_io_case hd body =
+  let opsof str = List.filter (fun t -> t <> []) (List.map toks (String.split_on_char ';' str)) in
+  match hd with
+  | ["BIN"; cls; w] -> let w = String.concat "" (String.split_on_char 'f' w) in let b = hexbytes body in emit_ms (bin_load_case !variant (cls = "U") (ni w) b) (bin_load_spec !variant (cls = "U") (ni w) b)
+  | ["BINW"; "D"; w; n] -> let o = List.map parse_dop (opsof body) in emit_ms (d_binw_case !variant (ni w) (ni n) o) (d_binw_spec (ni w) (ni n) o)
+  | ["BINW"; "U"; w; n] -> let o = List.map parse_uop (opsof body) in emit_ms (u_binw_case !variant (ni w) (ni n) o) (u_binw_spec (ni w) (ni n) o)
+  | ["TXT"; cls; lk; names] -> let b = hexbytes body in
+      emit_ms (text_load_case !variant (cls = "U") !strict_index (names = "1") (tlabel_of lk) b) (text_load_spec !variant (cls = "U") (names = "1") (tlabel_of lk) b)
+  | ["TXTW"; "D"; lk; n] -> let o = List.map parse_dop (opsof body) in emit_ms (d_txtw_case !variant (tlabel_of lk) (ni n) o) txtw_spec
+  | ["TXTW"; "U"; lk; n] -> let o = List.map parse_uop (opsof body) in emit_ms (u_txtw_case !variant (tlabel_of lk) (ni n) o) txtw_spec
+  | "NOFILE" :: _ -> let l = [List.init 8 (fun _ -> z_of_int (-103))] in zline "M" l; zline "S" l
+  | _ -> failwith "bad IO case"
 let run_case line =
   match String.index_opt line ':' with
   | None -> failwith ("bad case: " ^ line)
@@ -124,6 +148,7 @@ let run_case line =
     if (match hd with "CV" :: _ | "EL" :: _ -> true | _ -> false) then run_conv_case hd body else
     if (match hd with "SUB" :: _ -> true | _ -> false) then run_sub_case hd body else
     if (match hd with "PATH" :: _ | "DJ" :: _ -> true | _ -> false) then run_path_case hd body else
+    if (match hd with "BIN" :: _ | "BINW" :: _ | "TXT" :: _ | "TXTW" :: _ | "NOFILE" :: _ -> true | _ -> false) then run_io_case hd body else
     let ops = List.filter (fun t -> t <> []) (List.map toks (String.split_on_char ';' body)) in
     (match hd with
      | ["D"; lk; n] ->
